@@ -501,6 +501,9 @@ type BlockedObs struct {
 	Tid   int
 	Op    Op
 	Owner int
+	// what the lock's owner is about to do at this node (e.g. the yield inside a store call), if it is parked at a point
+	OwnerOp  Op
+	OwnerRes uintptr
 }
 
 type run struct {
@@ -767,7 +770,11 @@ func (r *run) loop() {
 				case OpLock, OpLockWait, OpRLock:
 					owner = r.lock(t.pending.res).owner
 				}
-				r.x.BlockedAt = append(r.x.BlockedAt, BlockedObs{Step: int(r.step), Tid: i, Op: t.pending.op, Owner: owner})
+				bo := BlockedObs{Step: int(r.step), Tid: i, Op: t.pending.op, Owner: owner}
+				if owner >= 0 && owner < len(r.thr) && r.thr[owner].state == 1 {
+					bo.OwnerOp, bo.OwnerRes = r.thr[owner].pending.op, r.thr[owner].pending.res
+				}
+				r.x.BlockedAt = append(r.x.BlockedAt, bo)
 			}
 		}
 		alts := make([]alt, 0, len(en)*(1+len(r.opt.Ticks)))
